@@ -23,21 +23,30 @@ CONSTANTS MaxLen,      \* number of lines
           Conds,       \* subset of {"T","F","D","N","V","U"} usable in #if / #elif
           Kinds        \* subset of line kinds to enumerate
 
-AllConds == {"T", "F", "D", "N", "V", "U"}
+AllConds == {"T", "F", "D", "N", "V", "U", "R", "H", "J"}
+\* T/F literal-valued expressions; D defined(M); N !defined(M); V value of M; U undefined identifier;
+\* R an expression over self-referential macros that is true because the surviving name counts as 0;
+\* H __has_include of an existing file (true); J __has_include of a missing file (false)
 CondKinds == {"if", "elif"}
 OpenKinds == {"if", "ifdef", "ifndef"}
 ElifKinds == {"elif", "elifdef", "elifndef"}
 PlainKinds == {"ifdef", "ifndef", "elifdef", "elifndef", "else", "endif",
-               "text", "def0", "def1", "undef", "warn", "inc"}
+               "text", "def0", "def1", "undef", "warn", "err", "inc", "inc2", "push", "pop"}
+\* "inc"  : #include of a file with one declaration
+\* "inc2" : #include of a file that says  #ifdef M / #pragma once / #endif  before its declaration
+\* "push"/"pop" : #pragma push_macro("M") / pop_macro("M")
 
 Lines == [k : CondKinds \cap Kinds, c : Conds] \cup [k : PlainKinds \cap Kinds]
 
 VARIABLES
   prog, depth, sawElse,            \* the program so far + well-nestedness bookkeeping
   rstack, rdef, rout, rev,         \* reference: stack, macro M (-1 undefined, else value), kept effects, evaluations
-  mode, level, celifs, mdef, mout, mev   \* mechanism
+  rpush, ronce,                    \* reference: push_macro stack of M, "the inc2 file is marked once"
+  mode, level, celifs, mdef, mout, mev,  \* mechanism
+  mpush, monce
 
-vars == <<prog, depth, sawElse, rstack, rdef, rout, rev, mode, level, celifs, mdef, mout, mev>>
+vars == <<prog, depth, sawElse, rstack, rdef, rout, rev, rpush, ronce,
+          mode, level, celifs, mdef, mout, mev, mpush, monce>>
 
 \* value of the controlling expression of line l when macro M has state d
 Val(l, d) ==
@@ -50,14 +59,18 @@ Val(l, d) ==
          [] l.c = "N" -> d = -1
          [] l.c = "V" -> d = 1          \* M expands to its value; an undefined identifier counts as 0
          [] l.c = "U" -> FALSE          \* an identifier that is never defined: 0
+         [] l.c = "R" -> TRUE
+         [] l.c = "H" -> TRUE
+         [] l.c = "J" -> FALSE
 
 RActive == \A i \in 1..Len(rstack) : rstack[i].active
 Pos == Len(prog) + 1
 
 Init ==
   /\ prog = <<>> /\ depth = 0 /\ sawElse = <<>>
-  /\ rstack = <<>> /\ rdef = -1 /\ rout = <<>> /\ rev = <<>>
+  /\ rstack = <<>> /\ rdef = -1 /\ rout = <<>> /\ rev = <<>> /\ rpush = <<>> /\ ronce = FALSE
   /\ mode = "N" /\ level = 0 /\ celifs = FALSE /\ mdef = -1 /\ mout = <<>> /\ mev = <<>>
+  /\ mpush = <<>> /\ monce = FALSE
 
 WellNested(l) ==
   CASE l.k \in OpenKinds -> depth < MaxDepth
@@ -65,7 +78,7 @@ WellNested(l) ==
     [] l.k = "endif" -> depth > 0
     [] OTHER -> TRUE
 
-Effect(l) == l.k \in {"text", "warn", "inc"}
+Effect(l) == l.k \in {"text", "warn", "err", "inc"}
 
 ---------------------------------------------------------------------------
 (* Reference *)
@@ -75,7 +88,7 @@ RefStep(l) ==
              v == outer /\ Val(l, rdef) IN
          /\ rstack' = Append(rstack, [taken |-> v, active |-> v, outer |-> outer])
          /\ rev' = IF outer THEN Append(rev, <<Pos, Val(l, rdef)>>) ELSE rev
-         /\ UNCHANGED <<rdef, rout>>
+         /\ UNCHANGED <<rdef, rout, rpush, ronce>>
     [] l.k \in ElifKinds ->
          LET top == rstack[Len(rstack)]
              need == top.outer /\ ~top.taken
@@ -83,22 +96,34 @@ RefStep(l) ==
          /\ rstack' = [rstack EXCEPT ![Len(rstack)] =
                           [taken |-> top.taken \/ v, active |-> v, outer |-> top.outer]]
          /\ rev' = IF need THEN Append(rev, <<Pos, Val(l, rdef)>>) ELSE rev
-         /\ UNCHANGED <<rdef, rout>>
+         /\ UNCHANGED <<rdef, rout, rpush, ronce>>
     [] l.k = "else" ->
          LET top == rstack[Len(rstack)]
              v == top.outer /\ ~top.taken IN
          /\ rstack' = [rstack EXCEPT ![Len(rstack)] =
                           [taken |-> TRUE, active |-> v, outer |-> top.outer]]
-         /\ UNCHANGED <<rdef, rout, rev>>
+         /\ UNCHANGED <<rdef, rout, rev, rpush, ronce>>
     [] l.k = "endif" ->
          /\ rstack' = SubSeq(rstack, 1, Len(rstack) - 1)
-         /\ UNCHANGED <<rdef, rout, rev>>
+         /\ UNCHANGED <<rdef, rout, rev, rpush, ronce>>
     [] Effect(l) ->
          /\ rout' = IF RActive THEN Append(rout, <<Pos, l.k>>) ELSE rout
-         /\ UNCHANGED <<rstack, rdef, rev>>
-    [] l.k = "def0" -> rdef' = (IF RActive THEN 0 ELSE rdef) /\ UNCHANGED <<rstack, rout, rev>>
-    [] l.k = "def1" -> rdef' = (IF RActive THEN 1 ELSE rdef) /\ UNCHANGED <<rstack, rout, rev>>
-    [] l.k = "undef" -> rdef' = (IF RActive THEN -1 ELSE rdef) /\ UNCHANGED <<rstack, rout, rev>>
+         /\ UNCHANGED <<rstack, rdef, rev, rpush, ronce>>
+    [] l.k = "def0" -> rdef' = (IF RActive THEN 0 ELSE rdef) /\ UNCHANGED <<rstack, rout, rev, rpush, ronce>>
+    [] l.k = "def1" -> rdef' = (IF RActive THEN 1 ELSE rdef) /\ UNCHANGED <<rstack, rout, rev, rpush, ronce>>
+    [] l.k = "undef" -> rdef' = (IF RActive THEN -1 ELSE rdef) /\ UNCHANGED <<rstack, rout, rev, rpush, ronce>>
+    [] l.k = "inc2" ->
+         \* the file is read unless it was marked once; it marks itself once when M is defined
+         /\ rout' = IF RActive /\ ~ronce THEN Append(rout, <<Pos, "inc2">>) ELSE rout
+         /\ ronce' = IF RActive /\ ~ronce THEN rdef # -1 ELSE ronce
+         /\ UNCHANGED <<rstack, rdef, rev, rpush>>
+    [] l.k = "push" ->
+         /\ rpush' = IF RActive THEN Append(rpush, rdef) ELSE rpush
+         /\ UNCHANGED <<rstack, rdef, rout, rev, ronce>>
+    [] l.k = "pop" ->
+         /\ rdef' = IF RActive /\ rpush # <<>> THEN rpush[Len(rpush)] ELSE rdef
+         /\ rpush' = IF RActive /\ rpush # <<>> THEN SubSeq(rpush, 1, Len(rpush) - 1) ELSE rpush
+         /\ UNCHANGED <<rstack, rout, rev, ronce>>
 
 ---------------------------------------------------------------------------
 (* Mechanism.  handle_if_directive / handle_ifdef_directive / handle_ifndef_directive:
@@ -112,31 +137,43 @@ HandleIf(l) ==
 MechStep(l) ==
   IF mode = "N" THEN
     \* process_directive (and ordinary text) in normal mode
-    CASE l.k \in OpenKinds -> HandleIf(l) /\ UNCHANGED <<mdef, mout>>
+    CASE l.k \in OpenKinds -> HandleIf(l) /\ UNCHANGED <<mdef, mout, mpush, monce>>
       [] l.k \in ElifKinds \cup {"else"} ->
            \* "Presumably this follows some #if": skip to the matching #endif, elifs not considered
-           mode' = "S" /\ level' = 0 /\ celifs' = FALSE /\ UNCHANGED <<mdef, mout, mev>>
-      [] l.k = "endif" -> UNCHANGED <<mode, level, celifs, mdef, mout, mev>>
-      [] Effect(l) -> mout' = Append(mout, <<Pos, l.k>>) /\ UNCHANGED <<mode, level, celifs, mdef, mev>>
-      [] l.k = "def0" -> mdef' = 0 /\ UNCHANGED <<mode, level, celifs, mout, mev>>
-      [] l.k = "def1" -> mdef' = 1 /\ UNCHANGED <<mode, level, celifs, mout, mev>>
-      [] l.k = "undef" -> mdef' = -1 /\ UNCHANGED <<mode, level, celifs, mout, mev>>
+           mode' = "S" /\ level' = 0 /\ celifs' = FALSE /\ UNCHANGED <<mdef, mout, mev, mpush, monce>>
+      [] l.k = "endif" -> UNCHANGED <<mode, level, celifs, mdef, mout, mev, mpush, monce>>
+      [] Effect(l) -> mout' = Append(mout, <<Pos, l.k>>) /\ UNCHANGED <<mode, level, celifs, mdef, mev, mpush, monce>>
+      [] l.k = "def0" -> mdef' = 0 /\ UNCHANGED <<mode, level, celifs, mout, mev, mpush, monce>>
+      [] l.k = "def1" -> mdef' = 1 /\ UNCHANGED <<mode, level, celifs, mout, mev, mpush, monce>>
+      [] l.k = "undef" -> mdef' = -1 /\ UNCHANGED <<mode, level, celifs, mout, mev, mpush, monce>>
+      [] l.k = "inc2" ->
+           \* handle_include_directive consults _parsed_files[..]._pragma_once; the included file's own
+           \* #ifdef M / #pragma once / #endif is processed by this same machine (balanced, so the mode
+           \* is N again afterwards) and reaches handle_pragma_directive only when M is defined
+           /\ mout' = IF ~monce THEN Append(mout, <<Pos, "inc2">>) ELSE mout
+           /\ monce' = IF ~monce THEN mdef # -1 ELSE monce
+           /\ UNCHANGED <<mode, level, celifs, mdef, mev, mpush>>
+      [] l.k = "push" -> mpush' = Append(mpush, mdef) /\ UNCHANGED <<mode, level, celifs, mdef, mout, mev, monce>>
+      [] l.k = "pop" ->
+           /\ mdef' = IF mpush # <<>> THEN mpush[Len(mpush)] ELSE mdef
+           /\ mpush' = IF mpush # <<>> THEN SubSeq(mpush, 1, Len(mpush) - 1) ELSE mpush
+           /\ UNCHANGED <<mode, level, celifs, mout, mev, monce>>
   ELSE
     \* skip_false_if_block: only directive names are looked at
-    CASE l.k \in OpenKinds -> level' = level + 1 /\ UNCHANGED <<mode, celifs, mdef, mout, mev>>
+    CASE l.k \in OpenKinds -> level' = level + 1 /\ UNCHANGED <<mode, celifs, mdef, mout, mev, mpush, monce>>
       [] l.k = "else" ->
            IF level = 0 /\ celifs
-             THEN mode' = "N" /\ UNCHANGED <<level, celifs, mdef, mout, mev>>
-             ELSE UNCHANGED <<mode, level, celifs, mdef, mout, mev>>
+             THEN mode' = "N" /\ UNCHANGED <<level, celifs, mdef, mout, mev, mpush, monce>>
+             ELSE UNCHANGED <<mode, level, celifs, mdef, mout, mev, mpush, monce>>
       [] l.k \in ElifKinds ->
            IF level = 0 /\ celifs
-             THEN HandleIf(l) /\ UNCHANGED <<mdef, mout>>
-             ELSE UNCHANGED <<mode, level, celifs, mdef, mout, mev>>
+             THEN HandleIf(l) /\ UNCHANGED <<mdef, mout, mpush, monce>>
+             ELSE UNCHANGED <<mode, level, celifs, mdef, mout, mev, mpush, monce>>
       [] l.k = "endif" ->
            IF level = 0
-             THEN mode' = "N" /\ UNCHANGED <<level, celifs, mdef, mout, mev>>
-             ELSE level' = level - 1 /\ UNCHANGED <<mode, celifs, mdef, mout, mev>>
-      [] OTHER -> UNCHANGED <<mode, level, celifs, mdef, mout, mev>>
+             THEN mode' = "N" /\ UNCHANGED <<level, celifs, mdef, mout, mev, mpush, monce>>
+             ELSE level' = level - 1 /\ UNCHANGED <<mode, celifs, mdef, mout, mev, mpush, monce>>
+      [] OTHER -> UNCHANGED <<mode, level, celifs, mdef, mout, mev, mpush, monce>>
 
 ---------------------------------------------------------------------------
 Step(l) ==
@@ -159,6 +196,7 @@ Refines ==
   /\ rout = mout              \* same text / diagnostics / includes survive
   /\ rdef = mdef              \* same macro state: skipped #define/#undef have no effect
   /\ rev = mev                \* the same conditions are evaluated, with the same value
+  /\ rpush = mpush /\ ronce = monce   \* skipped #pragma push_macro / pop_macro / once have no effect
   /\ (mode = "N") <=> RActive
 
 ClosedNormal == depth = 0 => mode = "N"
